@@ -202,4 +202,40 @@ CHECKS["C02"] = {
     "engine": "tlc+vh",
 }
 
+CHECKS["C08"] = {
+    "category": "model_checking",
+    "text": "spec/Derive.tla defines schemas (no names), the documented format DocEnc and the reader/writer projection Project; spec/MC_Derive.tla "
+            "enumerates schema families x all values x compatible reader schemas and TLC checks DocWellFormed, SelfProject and CompatNeverFails. "
+            "gen/schema2rs.py turns every emitted schema into a Rust type with the real derive macros (identifiers, declaration order and n/b "
+            "spelling drawn from a seed), vh-derive replays every case. This check claims the documented wire format DocEnc of spec/Derive.tla: every enumerated schema is turned into a Rust type with the real #[derive(Encode)] and its output compared byte for byte.",
+    "design_ref": "DESIGN.md section 6, C08 and section 7 (F4-F8)",
+    "note": "Trusted: TLC, the schema-to-Rust generator. 693 generated types in quick. Random wider-grammar schemas (I->S) are not built yet.",
+    "technique": "TLA+ spec of the derive wire format and compatibility projection (Derive) + TLC schema/value enumeration + code generation + replay on the real macros",
+    "engine": "tlc+vh-derive",
+}
+
+CHECKS["C09"] = {
+    "category": "model_checking",
+    "text": "spec/Derive.tla defines schemas (no names), the documented format DocEnc and the reader/writer projection Project; spec/MC_Derive.tla "
+            "enumerates schema families x all values x compatible reader schemas and TLC checks DocWellFormed, SelfProject and CompatNeverFails. "
+            "gen/schema2rs.py turns every emitted schema into a Rust type with the real derive macros (identifiers, declaration order and n/b "
+            "spelling drawn from a seed), vh-derive replays every case. This check claims round trip through the derived decoder: the documented bytes, a wider container head and an indefinite-length container must decode to the value with exact consumption; wrong inputs must fail.",
+    "design_ref": "DESIGN.md section 6, C09 and section 7 (F4-F8)",
+    "note": "Trusted: TLC, the schema-to-Rust generator. 693 generated types in quick. Random wider-grammar schemas (I->S) are not built yet.",
+    "technique": "TLA+ spec of the derive wire format and compatibility projection (Derive) + TLC schema/value enumeration + code generation + replay on the real macros",
+    "engine": "tlc+vh-derive",
+}
+
+CHECKS["C10"] = {
+    "category": "model_checking",
+    "text": "spec/Derive.tla defines schemas (no names), the documented format DocEnc and the reader/writer projection Project; spec/MC_Derive.tla "
+            "enumerates schema families x all values x compatible reader schemas and TLC checks DocWellFormed, SelfProject and CompatNeverFails. "
+            "gen/schema2rs.py turns every emitted schema into a Rust type with the real derive macros (identifiers, declaration order and n/b "
+            "spelling drawn from a seed), vh-derive replays every case. This check claims the compatibility relation Project of spec/Derive.tla: for every enumerated (writer, reader) pair related by the documented compatible changes and every writer value, in both directions, the reader must obtain the projected value.",
+    "design_ref": "DESIGN.md section 6, C10 and section 7 (F4-F8)",
+    "note": "Trusted: TLC, the schema-to-Rust generator. 693 generated types in quick. Random wider-grammar schemas (I->S) are not built yet.",
+    "technique": "TLA+ spec of the derive wire format and compatibility projection (Derive) + TLC schema/value enumeration + code generation + replay on the real macros",
+    "engine": "tlc+vh-derive",
+}
+
 NOT_YET = "check not built yet in this round (planned in DESIGN.md section 10); not claimed until it exists"
